@@ -191,6 +191,36 @@ func stringConstsBehind(w *World, v ssa.Value, depth int, out *[]string) {
 	}
 }
 
+type write struct {
+	call  *ssa.Call
+	texts []string
+}
+
+// writesOf lists the writes a function makes to the writer value wr.
+func writesOf(w *World, f *ssa.Function, wr ssa.Value) []write {
+	var out []write
+	for _, ci := range callsIn(f) {
+		c, ok := ci.(*ssa.Call)
+		if !ok {
+			continue
+		}
+		text, ok := writesTo(w, c, wr)
+		if !ok {
+			continue
+		}
+		wi := write{call: c}
+		if text == nil {
+			if fs, _, ok := formatCall(w, c); ok {
+				wi.texts = []string{fs}
+			}
+		} else {
+			stringConstsBehind(w, text, 0, &wi.texts)
+		}
+		out = append(out, wi)
+	}
+	return out
+}
+
 func ruleR12_1(w *World, r *Report) {
 	const id = "R12.1"
 	r.Rule(id, "bf.Dimacs: the header's variable count is the size of the map in which every index-allocating function records each index it hands out, clause literals come only from these functions, and the header's clause count is the length of the slice ranged over with exactly one unconditional clause line per iteration", 5)
@@ -215,10 +245,6 @@ func ruleR12_1(w *World, r *Report) {
 		return
 	}
 	// ---- classify every write to the writer
-	type write struct {
-		call  *ssa.Call
-		texts []string
-	}
 	var writes []write
 	var header *ssa.Call
 	var hdrArgs []ssa.Value
@@ -377,33 +403,114 @@ func ruleR12_1(w *World, r *Report) {
 			}
 		}
 	}
-	// the loop ranging over a load of the same field from the same root
-	var loopH *ssa.BasicBlock
-	for _, h := range loopHeaders(fn) {
-		iff, ok := h.Instrs[len(h.Instrs)-1].(*ssa.If)
+	// the loop ranging over a load of the same field from the same root: in the export function itself, or in a
+	// helper that is handed the translated formula and the writer (`writeClauses(cnf, w)`)
+	type lsite struct {
+		fn   *ssa.Function
+		root ssa.Value
+		wr   ssa.Value
+		via  *ssa.Call
+	}
+	sites := []lsite{{fn, clField.root, wr, nil}}
+	for _, ci := range callsIn(fn) {
+		c, ok := ci.(*ssa.Call)
 		if !ok {
 			continue
 		}
-		cond, ok := iff.Cond.(*ssa.BinOp)
-		if !ok || cond.Op != token.LSS {
+		g := c.Call.StaticCallee()
+		if g == nil || len(g.Blocks) == 0 {
 			continue
 		}
-		fr, ranged, ok := lenOfField(cond.Y)
-		if !ok || !fr.same(clField) || fr.root != clField.root {
+		g = w.unwrap(g)
+		if !m.inPkg[g] {
 			continue
 		}
-		if hh, _ := fullRangeLoose(fn, cond.X, ranged, h); hh {
-			if loopH != nil {
-				r.Unk(id, kCl, w.InstrPos(iff), "the clause list is ranged over twice")
-				return
+		var groot, gwr ssa.Value
+		for i, a := range c.Call.Args {
+			if i >= len(g.Params) {
+				break
 			}
-			loopH = h
+			if a == wr {
+				gwr = g.Params[i]
+			}
+			if a == clField.root {
+				groot = g.Params[i]
+			}
+		}
+		if gwr != nil {
+			sites = append(sites, lsite{g, groot, gwr, c})
+			writes = append(writes, writesOf(w, g, gwr)...)
+		}
+	}
+	var loopH *ssa.BasicBlock
+	var lfn *ssa.Function
+	var via *ssa.Call
+	for _, st := range sites {
+		if st.root == nil {
+			continue
+		}
+		for _, h := range loopHeaders(st.fn) {
+			iff, ok := h.Instrs[len(h.Instrs)-1].(*ssa.If)
+			if !ok {
+				continue
+			}
+			cond, ok := iff.Cond.(*ssa.BinOp)
+			if !ok || cond.Op != token.LSS {
+				continue
+			}
+			fr, ranged, ok := lenOfField(cond.Y)
+			if !ok || !fr.same(clField) || fr.root != st.root {
+				continue
+			}
+			if hh, _ := fullRangeLoose(st.fn, cond.X, ranged, h); hh {
+				if loopH != nil {
+					r.Unk(id, kCl, w.InstrPos(iff), "the clause list is ranged over twice")
+					return
+				}
+				loopH, lfn, via = h, st.fn, st.via
+			}
 		}
 	}
 	if loopH == nil {
 		r.Bad(id, kCl, w.InstrPos(header), "the problem line announces len("+clField.String()+") clauses but no loop ranges over all of that slice")
 		return
 	}
+	if via != nil {
+		// the helper runs once on every successful export: not in a loop, and no success return bypasses it
+		bypass := inLoop(fn, via.Block())
+		allInstrs(fn, func(ins ssa.Instruction) {
+			ret, isRet := ins.(*ssa.Return)
+			if !isRet || instrDominates(via, ret) {
+				return
+			}
+			for _, rv := range ret.Results {
+				if k, isK := rv.(*ssa.Const); isK && k.IsNil() {
+					bypass = true
+				}
+			}
+		})
+		if bypass {
+			r.Bad(id, kCl, w.InstrPos(via), "the export can succeed without running (exactly once) the helper that writes the clause lines")
+			return
+		}
+		if !instrReachableFrom(header, via) {
+			r.Bad(id, kCl, w.InstrPos(via), "the clause lines are written before the problem line")
+			return
+		}
+		for _, b := range lfn.Blocks {
+			for _, ins := range b.Instrs {
+				if st, ok := ins.(*ssa.Store); ok {
+					if fa, ok := st.Addr.(*ssa.FieldAddr); ok {
+						if fr, ok := fieldAddrRef(fa); ok && fr.same(clField) {
+							r.Bad(id, kCl, w.InstrPos(st), "the clause list is replaced inside the helper that writes it")
+							return
+						}
+					}
+				}
+			}
+		}
+	}
+	fn = lfn
 	body := loopBlocks(fn, loopH)
 	inner := map[*ssa.BasicBlock]bool{}
 	for _, h2 := range loopHeaders(fn) {
